@@ -33,6 +33,7 @@ type Engine struct {
 	lemmaTypes map[string]types.Type
 	lockMode   bool
 	wsCache    map[*ssa.Function]*writeSet
+	blockCache map[*ssa.Function]blockSet
 	sharedTypes map[string]bool
 	waitLevels map[string]int
 	smtLines  []string // repo-level spec theory
